@@ -329,6 +329,11 @@ class Program:
                         g["init_fn"] = Function(pf, u["unit"], files, config)
                     lst.append(g)
 
+        self.inlined = []
+        if not os.environ.get("RSV_NO_INLINE"):
+            from . import inline
+            self.inlined = inline.normalise(self, Function)
+
     # -- lookups that raise AnalysisBroken when an anchor vanished
     def fn(self, name, file=None):
         lst = self.functions.get(name, [])
